@@ -1215,6 +1215,12 @@ impl<const STREAMING: bool> GroupValues for GroupValuesColumn<STREAMING> {
                 // a real Result rather than panicking.
                 let fresh = Self::build_group_columns(&self.schema)?;
                 let group_values = mem::replace(&mut self.group_values, fresh);
+                // nothing is live any more: drop the index as well, so that the store is
+                // reusable without an intervening `clear_shrink`
+                self.map.clear();
+                if !STREAMING {
+                    self.group_index_lists.clear();
+                }
 
                 group_values
                     .into_iter()
